@@ -80,6 +80,7 @@ Render(qq, sg) == RenderHead(qq, sg)
                   \o RenderRest(qq.rest, qq, sg)
                   \o (IF qq.top > 0 /\ ~(sg.toptop /\ qq.head = "SELECT") /\ qq.head = "SELECT" THEN <<KW("LIMIT", sg.case), <<"num", qq.top - 1>> >> ELSE <<>>)
                   \o [k \in 1..sg.semis |-> <<"semi">>]
+                  \o (IF sg.comment THEN << <<"comment">> >> ELSE <<>>)          \* a comment line after the end of the query (and after its semicolon)
 
 Spellings == [case : 0..2, toptop : BOOLEAN, froma : BOOLEAN, set : BOOLEAN, semis : 0..1, comment : BOOLEAN]      \* "a trailing semicolon": one
 
